@@ -6,6 +6,8 @@ from sa import props
 from sa.core import Repo, AnalysisError
 from sa.runner import run_rules
 def one(sid):
+    from sa.runner import load_known
+    KNOWN_OPEN = load_known()
     d = f"/verif/seeded/{sid}"
     meta = json.load(open(d + "/meta.json"))
     tmp = tempfile.mkdtemp(prefix="st_")
@@ -23,7 +25,9 @@ def one(sid):
                 if repo is None:
                     raise AnalysisError("load")
                 obs = run_rules(repo, spec["rules"])
-                bad = sorted({o.rule for o in obs if not o.ok})
+                bad = sorted({o.rule for o in obs if not o.ok and not any(
+                    k.get("status") == "open" and k.get("rule") == o.rule and k.get("function", "").split("#")[0] == o.func.split("#")[0] and
+                    " ".join(k.get("construct", "").split()) == " ".join(o.construct.split()) for k in KNOWN_OPEN)})
                 if bad:
                     fired[pid] = bad
             except AnalysisError as e:
